@@ -31,9 +31,9 @@ open PdshVerif.Cbuf
     `traceM` is the model's own annotated history (operation, answer, reported capacity);
     `acceptS` replays it on the specification, comparing every answer. -/
 theorem history_refines_fifo (mn mx : Int) (sm : Nat) (hsm : 0 < sm) (c : Cbuf)
-    (hc : create mn mx sm = some c) (ops : List Op) :
-    acceptS (abs c) (traceM c ops) = some (abs (runM c ops).2) := by
-  exact (run_refines (inv_create hsm hc).1 ops).1
+    (hc : create mn mx sm = some c) (ops : List Op) (pol : Policy := chunkPolicy) [Admissible pol] :
+    acceptS (abs c) (traceM c ops pol) = some (abs (runM c ops pol).2) := by
+  exact (run_refines (inv_create hsm hc).1 ops pol).1
 
 /-- the abstract state of a fresh buffer is the empty FIFO the specification starts from -/
 theorem create_refines (mn mx : Int) (sm : Nat) (c : Cbuf) (hc : create mn mx sm = some c) :
@@ -54,16 +54,16 @@ theorem create_none_iff (mn mx : Int) (sm : Nat) : create mn mx sm = none ↔ Sp
 
 /-- every reachable state satisfies the conjuncts of `cbuf_is_valid` -/
 theorem reachable_valid (mn mx : Int) (sm : Nat) (hsm : 0 < sm) (c : Cbuf)
-    (hc : create mn mx sm = some c) (ops : List Op) :
-    isValid (runM c ops).2 = true := by
-  exact isValid_of_inv (run_refines (inv_create hsm hc).1 ops).2
+    (hc : create mn mx sm = some c) (ops : List Op) (pol : Policy := chunkPolicy) [Admissible pol] :
+    isValid (runM c ops pol).2 = true := by
+  exact isValid_of_inv (run_refines (inv_create hsm hc).1 ops pol).2
 
 /-- the buffer never reports a size outside [min,max] nor holds more than its size -/
 theorem size_bounds (mn mx : Int) (sm : Nat) (hsm : 0 < sm) (c : Cbuf)
-    (hc : create mn mx sm = some c) (ops : List Op) :
-    let c' := (runM c ops).2
+    (hc : create mn mx sm = some c) (ops : List Op) (pol : Policy := chunkPolicy) [Admissible pol] :
+    let c' := (runM c ops pol).2
     c'.minsize ≤ c'.size ∧ c'.size ≤ c'.maxsize ∧ c'.used ≤ c'.size ∧ (contents c').length = c'.used := by
-  have hi := (run_refines (inv_create hsm hc).1 ops).2
+  have hi := (run_refines (inv_create hsm hc).1 ops pol).2
   exact ⟨hi.smin, hi.smax, hi.used, contents_length _⟩
 
 /-! ### what the specification itself guarantees (independent of the index model) -/
@@ -196,10 +196,20 @@ theorem spec_readLine_whole (f : Spec.Fifo) (len lines : Int) (hl : lines ≥ -1
     to a descriptor that takes `cap` bytes) on a freshly created buffer behaves like the FIFO with
     a history of consumed bytes -/
 theorem history_refines_replay_fifo (mn mx : Int) (sm : Nat) (hsm : 0 < sm) (c : Cbuf)
-    (hc : create mn mx sm = some c) (ops : List OpR) :
-    acceptSR (absR c) (traceMR c ops) = some (absR (runMR c ops).2) ∧
-    isValid (runMR c ops).2 = true := by
-  have h := runR_refines (inv_create hsm hc).1 ops
+    (hc : create mn mx sm = some c) (ops : List OpR) (pol : Policy := chunkPolicy) [Admissible pol] :
+    acceptSR (absR c) (traceMR c ops pol) = some (absR (runMR c ops pol).2) ∧
+    isValid (runMR c ops pol).2 = true := by
+  have h := runR_refines (inv_create hsm hc).1 ops pol
+  exact ⟨h.1, isValid_of_inv h.2⟩
+
+/-- the same with a DIFFERENT admissible growth policy at every step: this is the statement that
+    covers the model as the driver runs it against the code under test, following at every step
+    the capacity the code itself reported (`pinPolicy`, admissible by `pin_admissible`) -/
+theorem history_refines_replay_fifo_any_policies (mn mx : Int) (sm : Nat) (hsm : 0 < sm) (c : Cbuf)
+    (hc : create mn mx sm = some c) (ops : List (APolicy × OpR)) :
+    acceptSR (absR c) (traceMRp c ops) = some (absR (runMRp c ops).2) ∧
+    isValid (runMRp c ops).2 = true := by
+  have h := runRp_refines (inv_create hsm hc).1 ops
   exact ⟨h.1, isValid_of_inv h.2⟩
 
 /-- a fresh buffer has nothing to replay -/
@@ -217,21 +227,30 @@ theorem create_refines_replay (mn mx : Int) (sm : Nat) (hsm : 0 < sm) (c : Cbuf)
 /-- any history over two freshly created buffers, including cbuf_copy and cbuf_move in both
     directions, is accepted by the pair of specifications with identical answers -/
 theorem pair_history_refines_fifo (mn1 mx1 mn2 mx2 : Int) (sm : Nat) (hsm : 0 < sm) (a b : Cbuf)
-    (ha : create mn1 mx1 sm = some a) (hb : create mn2 mx2 sm = some b) (ops : List Op2) :
-    acceptS2 (absR2 (a, b)) (traceM2 (a, b) ops) = some (absR2 (runM2 (a, b) ops).2) ∧
-    isValid (runM2 (a, b) ops).2.1 = true ∧ isValid (runM2 (a, b) ops).2.2 = true := by
-  have h := run2_refines (s := (a, b)) ⟨(inv_create hsm ha).1, (inv_create hsm hb).1⟩ ops
+    (ha : create mn1 mx1 sm = some a) (hb : create mn2 mx2 sm = some b) (ops : List Op2)
+    (pol : Policy := chunkPolicy) [Admissible pol] :
+    acceptS2 (absR2 (a, b)) (traceM2 (a, b) ops pol) = some (absR2 (runM2 (a, b) ops pol).2) ∧
+    isValid (runM2 (a, b) ops pol).2.1 = true ∧ isValid (runM2 (a, b) ops pol).2.2 = true := by
+  have h := run2_refines (s := (a, b)) ⟨(inv_create hsm ha).1, (inv_create hsm hb).1⟩ ops pol
+  exact ⟨h.1, isValid_of_inv h.2.1, isValid_of_inv h.2.2⟩
+
+/-- two buffers, a different admissible growth policy at every step -/
+theorem pair_history_refines_fifo_any_policies (mn1 mx1 mn2 mx2 : Int) (sm : Nat) (hsm : 0 < sm) (a b : Cbuf)
+    (ha : create mn1 mx1 sm = some a) (hb : create mn2 mx2 sm = some b) (ops : List (APolicy × Op2)) :
+    acceptS2 (absR2 (a, b)) (traceM2p (a, b) ops) = some (absR2 (runM2p (a, b) ops).2) ∧
+    isValid (runM2p (a, b) ops).2.1 = true ∧ isValid (runM2p (a, b) ops).2.2 = true := by
+  have h := run2p_refines (s := (a, b)) ⟨(inv_create hsm ha).1, (inv_create hsm hb).1⟩ ops
   exact ⟨h.1, isValid_of_inv h.2.1, isValid_of_inv h.2.2⟩
 
 /-- the byte / line / replay counters agree with the contents in every reachable state -/
 theorem counters_agree (mn mx : Int) (sm : Nat) (hsm : 0 < sm) (c : Cbuf)
-    (hc : create mn mx sm = some c) (ops : List OpR) :
-    let c' := (runMR c ops).2
+    (hc : create mn mx sm = some c) (ops : List OpR) (pol : Policy := chunkPolicy) [Admissible pol] :
+    let c' := (runMR c ops pol).2
     c'.used = (absR c').f.q.length ∧ c'.size - c'.used = (absR c').f.size - (absR c').f.q.length ∧
     linesUsed c' = Spec.countNl (absR c').f.q ∧ reused c' = (absR c').hist.length ∧
     (c'.used = 0 ↔ (absR c').f.q = []) ∧ reused c' + c'.used ≤ c'.size := by
-  have hi := (runR_refines (inv_create hsm hc).1 ops).2
-  generalize (runMR c ops).2 = c' at hi
+  have hi := (runR_refines (inv_create hsm hc).1 ops pol).2
+  generalize (runMR c ops pol).2 = c' at hi
   simp only [absR_f, absR_hist, abs_q, abs_size, contents_length, hist_length]
   refine ⟨trivial, trivial, linesUsed_refines hi, trivial, ?_, (reused_facts hi).1⟩
   constructor
@@ -292,6 +311,58 @@ example :
           [.on false (.base (.write [97, 10, 98, 99])), .on false (.base (.read 3)), .on false (.replay 2),
            .on false (.rewind 1), .on false (.readToFd (-1) 1), .copy false (-1), .move false 1,
            .on true (.base (.read 9)), .on true (.replayToFd (-1) 2)])).isSome = true := by decide
+
+/-! ### the growth policy is a parameter -/
+
+/-- the policy of the code as it is (round the needed allocation up to the next CBUF_CHUNK
+    multiple) is admissible -/
+theorem chunk_policy_admissible : Admissible chunkPolicy := inferInstance
+
+/-- following an observed capacity is admissible whatever was observed -/
+theorem pinned_policy_admissible (base : Policy) [Admissible base] (sizeMeta sObs : Nat) :
+    Admissible (pinPolicy base sizeMeta sObs) := inferInstance
+
+/-- admissibility is decidable choice by choice (`Policy.admAt`), and an admissible policy passes
+    the test at every point -/
+theorem admissible_decidable_pointwise (pol : Policy) [Admissible pol] (alloc n mn mx : Nat) :
+    pol.admAt alloc n mn mx = true := admAt_of_admissible pol alloc n mn mx
+
+/-- what admissibility buys, and all the proofs use of it -- "grow before you lose": after the
+    growth step of any writing call the request fits into the free space or the buffer has its
+    maximum size; the capacity never shrinks and never exceeds the maximum; nothing held is lost -/
+theorem grow_before_you_lose {c : Cbuf} (hi : Inv c) (len : Nat) (pol : Policy) [Admissible pol] :
+    let c' := (maybeGrow c len pol).1
+    (len ≤ c'.size - c'.used ∨ c'.size = c'.maxsize) ∧ c.size ≤ c'.size ∧ c'.size ≤ c'.maxsize ∧
+    contents c' = contents c ∧ hist c' = hist c ∧ Inv c' := by
+  have g := maybeGrow_ok hi len pol
+  have w := maybeGrow_whole hi len pol
+  refine ⟨g.enough, g.sizeLo, g.inv.smax, g.contents, ?_, g.inv⟩
+  have h1 := whole_eq g.inv
+  have h2 := whole_eq hi
+  rw [w, h2, g.contents] at h1
+  exact (List.append_cancel_right h1).symm
+
+/-- an inadmissible choice is observable: a policy that asks for less than is needed leaves a
+    request that does not fit although the buffer is not at its maximum (witness) -/
+theorem inadmissible_choice_witness :
+    (do let c ← create 2 50 1
+        let c' := (maybeGrow c 10 (fun alloc _ _ _ => alloc + 1)).1
+        some (decide (10 ≤ c'.size - c'.used ∨ c'.size = c'.maxsize))) = some false := by decide
+
+/-- geometric growth (harmless change C13-H2): at least double the allocation -/
+def doublingPolicy : Policy := fun alloc n _ _ => max (2 * alloc) (alloc + n)
+
+instance doubling_admissible : Admissible doublingPolicy :=
+  ⟨fun alloc n _ _ => by simp only [doublingPolicy]; omega⟩
+
+/-- non-vacuity of the policy parameter: the same history is accepted under geometric growth, and
+    the two policies really choose different capacities -/
+example :
+    (do let c ← create 2 40 1
+        let ops : List OpR := [.base (.write [97, 10, 98]), .base (.write [99, 100, 10, 101]), .base (.readLine 8 1),
+          .replay 2, .base (.read 3)]
+        let _ ← acceptSR (absR c) (traceMR c ops doublingPolicy)
+        some (decide ((runMR c ops doublingPolicy).2.size ≠ (runMR c ops).2.size))) = some true := by decide
 
 /-- non-vacuity: a concrete history with growth, wrap-around and a line read is accepted -/
 example :
